@@ -17,6 +17,7 @@ CODES = {'B': (1, False), 'H': (2, False), 'I': (4, False), 'Q': (8, False),
 
 class Packed:
     """bytes produced by struct.pack / read from a trace: (nbytes, unsigned value)"""
+    py_types = ('bytes',)
 
     def __init__(self, n, u):
         self.n, self.u = n, u
@@ -25,18 +26,93 @@ class Packed:
         return self.n
 
     def getslice(self, eng, lo, hi):
-        if lo is not None and hi is None and isinstance(lo, int) and 0 <= lo <= self.n:
-            k = self.n - lo
-            return Packed(k, pymod(zint(self.u), z3.IntVal(256 ** k)) if k else z3.IntVal(0))
-        raise Unsupported('slice of packed bytes other than [k:]')
+        """bytes [lo:hi) of the big-endian value, for concrete bounds (Python slice semantics)"""
+        if (lo is None or isinstance(lo, int)) and (hi is None or isinstance(hi, int)):
+            lo, hi, _ = slice(lo, hi).indices(self.n)
+            k = max(0, hi - lo)
+            if k == 0:
+                return b''
+            if k == self.n:
+                return self
+            return Packed(k, pymod(floordiv(zint(self.u), z3.IntVal(256 ** (self.n - hi))), z3.IntVal(256 ** k)))
+        raise Unsupported('slice of packed bytes with symbolic bounds')
+
+    def byte_var(self, eng, k):
+        """byte k as an integer: the bytes of an n-byte big-endian value are fresh integers b_k in [0, 256) with
+        sum(b_k * 256^(n-1-k)) == u - the unique decomposition of u (0 <= u < 256^n holds for every traced field: it
+        is a `fits` result)"""
+        if self.n == 1:
+            return zint(self.u)
+        if getattr(self, '_bytes', None) is None:
+            self._bytes = [fresh('byte') for _ in range(self.n)]
+            eng.assume(z3.And(*[z3.And(b >= 0, b < 256) for b in self._bytes]))
+            eng.assume(zint(self.u) == z3.Sum([b * (256 ** (self.n - 1 - k)) for k, b in enumerate(self._bytes)]))
+        return self._bytes[k]
 
     def getitem(self, eng, idx):
-        if isinstance(idx, int) and 0 <= idx < self.n:
-            return pymod(floordiv(zint(self.u), z3.IntVal(256 ** (self.n - 1 - idx))), z3.IntVal(256))
+        if isinstance(idx, int) and -self.n <= idx < self.n:
+            if self.n == 1:
+                return zint(self.u)
+            return ByteSum(eng, [(self, idx % self.n, 1)])
         raise Unsupported('index into packed bytes')
 
 
+class ByteSum:
+    """A weighted sum of bytes of packed values, as code that reassembles an integer from its bytes builds it
+    (`(d[0] << 8) + d[1]`).  When the sum contains every byte of a packed value with its big-endian weight it IS
+    that value (times a common factor); anything else falls back to the linear byte decomposition."""
+
+    def __init__(self, eng, terms, rest=0):
+        self.eng, self.terms, self.rest = eng, terms, rest
+
+    def as_int(self):
+        groups = {}
+        for p, k, c in self.terms:
+            groups.setdefault(id(p), (p, {}))[1][k] = groups.get(id(p), (p, {}))[1].get(k, 0) + c
+        total = zint(self.rest)
+        for p, coefs in groups.values():
+            low = coefs.get(p.n - 1)
+            if len(coefs) == p.n and low and all(coefs[k] == low * 256 ** (p.n - 1 - k) for k in range(p.n)):
+                total = total + low * zint(p.u)
+            else:
+                for k, c in coefs.items():
+                    total = total + c * p.byte_var(self.eng, k)
+        return z3.simplify(total)
+
+    def done(self):
+        """plain integer as soon as nothing but whole values is left"""
+        groups = {}
+        for p, k, c in self.terms:
+            groups.setdefault(id(p), (p, {}))[1][k] = c
+        for p, coefs in groups.values():
+            low = coefs.get(p.n - 1)
+            if not (len(coefs) == p.n and low and all(coefs[k] == low * 256 ** (p.n - 1 - k) for k in range(p.n))):
+                return self
+        return self.as_int()
+
+    def binop(self, eng, op, other, swapped):
+        if isinstance(op, ast.LShift) and not swapped and isinstance(other, int) and other >= 0:
+            return self.scale(2 ** other)
+        if isinstance(op, ast.Mult) and isinstance(other, int):
+            return self.scale(other)
+        if isinstance(op, ast.Add):
+            if isinstance(other, ByteSum):
+                return ByteSum(eng, self.terms + other.terms, zint(self.rest) + zint(other.rest)).done()
+            return ByteSum(eng, self.terms, zint(self.rest) + zint(other)).done()
+        a, b = (other, self.as_int()) if swapped else (self.as_int(), other)
+        return eng.binop(op, a, b)
+
+    def scale(self, m):
+        return ByteSum(self.eng, [(p, k, c * m) for p, k, c in self.terms], zint(self.rest) * m).done()
+
+    def compare(self, eng, op, other, swapped):
+        a, b = (other, self.as_int()) if swapped else (self.as_int(), other)
+        return eng.compare(op, a, b)
+
+
 class Trace:
+    py_types = ('BytesIO', 'RawIOBase', 'BufferedReader')
+
     def __init__(self):
         self.fields = []        # [(nbytes, unsigned value term)]
         self.cursor = 0         # index of the next field to read
@@ -91,7 +167,10 @@ class Trace:
             self.partial += take
             if self.partial == fn:
                 self.cursor, self.partial = self.cursor + 1, 0
-        return Packed(n, z3.simplify(u))
+        u = z3.simplify(u)
+        if z3.is_int_value(u):
+            return u.as_long().to_bytes(n, 'big')       # constant data reads back as real bytes
+        return Packed(n, u)
 
 
 def fits(eng, v, n, signed, what):
@@ -111,6 +190,8 @@ def struct_pack(eng, e, args):
 
 def struct_unpack(eng, e, args):
     fmt, data = args
+    if isinstance(data, bytes):
+        data = Packed(len(data), z3.IntVal(int.from_bytes(data, 'big')))
     if not isinstance(fmt, str) or len(fmt) != 2 or fmt[0] != '>' or fmt[1] not in CODES or not isinstance(data, Packed):
         raise Unsupported(f'struct.unpack({fmt!r})')
     n, signed = CODES[fmt[1]]
@@ -118,7 +199,10 @@ def struct_unpack(eng, e, args):
         eng.oblige('safety', 'struct.unpack.size', z3.BoolVal(False))
         from ..engine import PathCut
         raise PathCut()
-    u = zint(data.u)
+    u = z3.simplify(zint(data.u))
+    if z3.is_int_value(u):
+        c = u.as_long()                       # a constant that was written reads back as a Python int
+        return (c - 256 ** n if signed and c >= (256 ** n) // 2 else c,)
     v = z3.If(u >= (256 ** n) // 2, u - 256 ** n, u) if signed else u
     return (v,)
 
